@@ -20,7 +20,7 @@ META = {
         "arguments) before/around faulty code; a fifth of the inputs is also written to ONE file per worker (rewritten for every case) and parsed "
         "with parse_file, where the error text is re-read from the file.  Oracle (predicate over the exception and the text, lines "
         "split on '\\n'): msg and filename non-empty str; 1<=lineno<=nlines+1; 1<=offset<=len(line)+1; end position present and >= start; "
-        "text is a str whose rstrip() starts with the reported source line's rstrip().  non-trivial = input has >=3 lines and the reported "
+        "text is a str that starts with the reported physical source line (trailing blanks included, line end excluded).  non-trivial = input has >=3 lines and the reported "
         "line is not line 1, or the span covers more than one line; distinct by (text, options)."
     ),
     "assumptions": ["TokenError outcomes are outside C11 (C03 allows them); trees and other exceptions are not C11's business"],
@@ -81,7 +81,7 @@ def oracle(src: str, e: SyntaxError):
         probs.append("end<start")
     if not isinstance(e.text, str):
         probs.append("text-missing")
-    elif not e.text.rstrip().startswith(line.rstrip()):
+    elif not e.text.startswith(line):  # (line = the physical line without its line end, blanks included)
         probs.append("text-mismatch")
     return probs
 
